@@ -81,6 +81,13 @@ BRIDGE_NOTE = (" + PyO3 boundary replay: chains replayed call by call through th
                "StrategyForPython with real files) and the real history_comparisons.py, every call result / query result / returned "
                "history compared with the Rust binding's")
 _BRIDGE = {
+    "C02": {"pybridge_evaluations": 1000},
+    "C05": {"pybridge_evaluations": 1000},
+    "C07": {"pybridge_evaluations": 1000, "pybridge_faulty_evaluations": 300},
+    "C10": {"pybridge_evaluations": 1000, "pybridge_faulty_evaluations": 300},
+    "C13": {"pybridge_evaluations": 1000},
+    "C14": {"pybridge_evaluations": 1000},
+    "C17": {"pybridge_evaluations": 1000},
     "C01": {"pybridge_evaluations": 1000},
     "C08": {"pybridge_evaluations": 1000, "pybridge_faulty_evaluations": 300},
     "C09": {"pybridge_evaluations": 1000, "pybridge_faulty_evaluations": 300},
